@@ -127,13 +127,11 @@ def r4_bridge_failures(ctx):
     fi = repo.func(f"{BR}.recv_events")
     ctx.analysed(fi.qual)
     m = repo.module("cascade.executor.bridge")
-    members = set(repo.union_members(m, repo.consts["cascade.executor.bridge.ToShutdown"][1]) or [])
+    # the messages that must end the run: every failure class of the protocol (behavioural check below; no reliance on how the bridge
+    # groups them — alias, tuple, match statement)
+    members = set()
     fail_classes = [q for q, ci in repo.classes.items() if ci.module.name == "cascade.executor.msg" and (ci.name.endswith("Failure") or ci.name == "ExecutorExit")]
     ctx.floor("C05.R4.failure_classes", len(fail_classes), 4)
-    for q in fail_classes:
-        if q not in members:
-            ctx.violation("C05.R4", fi.qual, "src/cascade/executor/bridge.py", f"{q.rsplit('.', 1)[-1]} in ToShutdown",
-                          f"{q.rsplit('.', 1)[-1]} is not among the messages that shut the controller down: such a failure would be ignored and the run would hang")
     for q in sorted(members | set(fail_classes)):
         nm = q.rsplit(".", 1)[-1]
         msg = Obj(q, {"host": "H1", "worker": worker("H1"), "detail": "d", "task": "t"}, name=f"m-{nm}")
@@ -153,6 +151,12 @@ def r4_bridge_failures(ctx):
                 ctx.violation("C05.R4", fi.qual, loc(fi), f"{nm} forgets exactly that host",
                               f"hosts H1 and H10 registered, {nm} of H1 received: channels still known afterwards {left}; expected ['H10', 'data.H10'] — a host that is "
                               f"forgotten by mistake never gets the shutdown command and stays behind with its workers and segments; a host that is not forgotten is waited for")
+                continue
+            if nm not in ("ExecutorExit", "ExecutorFailure") and left is not None and left != ["H1", "H10", "data.H1", "data.H10"]:
+                ctx.violation("C05.R4", fi.qual, loc(fi), f"{nm} forgets no host",
+                              f"hosts H1 and H10 registered, {nm} (reported from H1, whose executor is alive) received: channels still known afterwards {left}; "
+                              f"only an executor's own exit / failure may drop it — a live executor that is forgotten never gets the shutdown command and stays "
+                              f"behind with its workers, shm server and segments")
                 continue
             spin = [e for e in p.effects if e.kind == "loop_exit" and e.data.get("bound")]
             if spin or p.exit[0] == "trunc":
